@@ -187,3 +187,9 @@ Proof.
   - destruct l; [reflexivity|]. unfold len in *. simpl length in *. lia.
   - replace (1 - 1) with 0 by lia. apply slice_full.
 Qed.
+
+Lemma rep_nil n : strRep [] n = [] /\ rep_spec [] n = [].
+Proof.
+  unfold strRep, rep_spec. assert (H : forall k, repeat_app (@nil Z) k = []) by (induction k; auto).
+  split; [destruct (n <? 0) | destruct (n <=? 0)]; auto.
+Qed.
